@@ -312,3 +312,66 @@ Proof.
   destruct (cache_call enabled max_entries st e fresh) as [l st'] eqn:E. cbn [fst snd] in *.
   constructor; [exact H1|]. now apply IH.
 Qed.
+
+(* ---------- the time index builder ---------- *)
+
+Definition bounds (acc : Z * Z * Z * Z) (r : rec) : Prop :=
+  let '(mint, maxt, mino, maxo) := acc in
+  mint <= r_ts r <= maxt /\ mino <= r_off r <= maxo.
+
+Definition widens (a b : Z * Z * Z * Z) : Prop :=
+  let '(mint, maxt, mino, maxo) := a in
+  let '(mint', maxt', mino', maxo') := b in
+  mint' <= mint /\ maxt <= maxt' /\ mino' <= mino /\ maxo <= maxo'.
+
+Lemma scan_step_widens acc r : widens acc (scan_step acc r) /\ bounds (scan_step acc r) r.
+Proof.
+  destruct acc as [[[mint maxt] mino] maxo]. unfold scan_step, widens, bounds.
+  destruct (r_ts r <? mint) eqn:E1, (maxt <? r_ts r) eqn:E2,
+           (r_off r <? mino) eqn:E3, (maxo <? r_off r) eqn:E4; lia.
+Qed.
+
+Lemma widens_trans a b c : widens a b -> widens b c -> widens a c.
+Proof.
+  destruct a as [[[? ?] ?] ?], b as [[[? ?] ?] ?], c as [[[? ?] ?] ?]. unfold widens. lia.
+Qed.
+
+Lemma widens_bounds a b r : widens a b -> bounds a r -> bounds b r.
+Proof.
+  destruct a as [[[? ?] ?] ?], b as [[[? ?] ?] ?]. unfold widens, bounds. lia.
+Qed.
+
+Lemma scan_fold recs : forall acc,
+  widens acc (fold_left scan_step recs acc) /\
+  forall r, In r recs -> bounds (fold_left scan_step recs acc) r.
+Proof.
+  induction recs as [|x recs IH]; intros acc; cbn [fold_left].
+  - split; [destruct acc as [[[? ?] ?] ?]; unfold widens; lia|intros r []].
+  - destruct (scan_step_widens acc x) as [Hw Hb]. destruct (IH (scan_step acc x)) as [Hw' Hb'].
+    split; [eapply widens_trans; eauto|].
+    intros r [<-|Hr]; [eapply widens_bounds; eauto|now apply Hb'].
+Qed.
+
+(* a footer written by the builder bounds the records it was built from *)
+Theorem scan_segment_sound w :
+  w_footer w = scan_segment (w_recs w) -> footer_sound w.
+Proof.
+  intros Hf. unfold footer_sound. rewrite Hf. unfold scan_segment.
+  destruct (w_recs w) as [|r0 rest] eqn:Er; [exact I|].
+  destruct (scan_fold rest (r_ts r0, r_ts r0, r_off r0, r_off r0)) as [Hw Hb].
+  destruct (fold_left scan_step rest (r_ts r0, r_ts r0, r_off r0, r_off r0)) as [[[mint maxt] mino] maxo] eqn:E.
+  intros r [<-|Hr].
+  - unfold widens in Hw. lia.
+  - specialize (Hb r Hr). unfold bounds in Hb. exact Hb.
+Qed.
+
+Theorem discovery_stats_sound_built ws :
+  contiguous ws ->
+  Forall (fun w => w_footer w = None \/ w_footer w = scan_segment (w_recs w)) ws ->
+  Forall stats_sound (discover ws).
+Proof.
+  intros Hc Hf. apply discovery_stats_sound; [exact Hc|].
+  rewrite Forall_forall in *. intros w Hw. destruct (Hf w Hw) as [Hn|Hs].
+  - unfold footer_sound. now rewrite Hn.
+  - now apply scan_segment_sound.
+Qed.
